@@ -107,7 +107,9 @@ func (r restClientProtocol) addProtocolResponseHeaders(meta responseMeta, header
 	isErr := meta.end != nil && meta.end.err != nil
 	// Only JSON is supported for now unless using google.api.HttpBody
 	// payloads which override the content-type.
-	if headers["Content-Type"] == nil {
+	if headers["Content-Type"] == nil || isErr {
+		// (an error is always the status in the codec's form, whatever content
+		// type an HttpBody message that came before it may have named)
 		headers["Content-Type"] = []string{contentRestPrefix + meta.codec}
 	}
 	if !isErr && meta.compression != "" {
